@@ -110,3 +110,16 @@ pub fn c04_exhaustive_question_marks(a: Result<u8, ()>, b: Result<u8, ()>) -> Re
         }
     }
 }
+
+// C11.R1 control: iteration over a hash set reaches the output
+pub fn c11_hash_iteration(names: &[String]) -> Vec<String> {
+    let mut set = std::collections::HashSet::new();
+    for n in names {
+        set.insert(n.clone());
+    }
+    let mut out = Vec::new();
+    for n in &set {
+        out.push(n.clone());
+    }
+    out
+}
